@@ -624,12 +624,28 @@ fn scen_body(sc: &Scen) {
                 })
             })
             .collect();
+        // C24: requests on the original handle, issued by the main thread while the others run
+        let mut main_outs: Vec<Out> = Vec::new();
+        if sc.oracle == Oracle::Distinct && phase == 0 {
+            for op in &sc.writer {
+                main_outs.push(request(&sess.db, op));
+            }
+        }
         let mut outs: Vec<Vec<Out>> = Vec::new();
         for h in handles {
             match h.join() {
                 Ok(o) => outs.push(o),
                 Err(_) => {
                     viol(&format!("thread-panic:{}", sc.name), "a reader thread panicked outside a request".into());
+                    return;
+                }
+            }
+        }
+        if sc.oracle == Oracle::Distinct && phase == 0 && !sc.writer.is_empty() {
+            let exp = expected_for(&world, &sc.writer);
+            for (i, (e, o)) in exp.iter().zip(main_outs.iter()).enumerate() {
+                if !out_matches(e, o) {
+                    viol(&format!("value:{}", sc.name), format!("original handle, request {i} {:?}: expected {e:?}, observed {o:?}", sc.writer[i]));
                     return;
                 }
             }
